@@ -1406,11 +1406,21 @@ func runB9(p *an.Prog, r *an.Result) {
 		return
 	}
 	rname := an.FuncName(rfn)
-	reads := callsNamed(rfn, "os.ReadFile")
+	// the function that reads the file: RenderFile itself or a helper it calls
+	var reads []*ssa.Call
+	readFn := rfn
+	for _, f := range unitWithHelpers(p, rfn) {
+		if rs := callsNamed(f, "os.ReadFile"); len(rs) > 0 {
+			reads = append(reads, rs...)
+			readFn = f
+		}
+	}
 	if len(reads) != 1 {
 		r.Bad(rname, "os.ReadFile calls", an.FuncPos(rfn), fmt.Sprintf("expected one os.ReadFile, found %d", len(reads)))
 		return
 	}
+	compileFn := rfn
+	rfn = readFn
 	var readErr ssa.Value
 	if reads[0].Referrers() != nil {
 		for _, u := range *reads[0].Referrers() {
@@ -1429,7 +1439,7 @@ func runB9(p *an.Prog, r *an.Result) {
 		lookups++
 		hasErr, hasNotExist := false, false
 		for _, g := range an.GuardsAtInstr(lk) {
-			if b, ok := g.Cond.(*ssa.BinOp); ok && b.Op == token.NEQ && g.True && b.X == readErr && an.IsNilConst(b.Y) {
+			if b, ok := g.Cond.(*ssa.BinOp); ok && (b.Op == token.NEQ && g.True || b.Op == token.EQL && !g.True) && b.X == readErr && an.IsNilConst(b.Y) {
 				hasErr = true
 			}
 			if c := an.CallOf(g.Cond); c != nil && g.True && an.CallName(c) == "os.IsNotExist" && c.Args[0] == readErr {
@@ -1457,7 +1467,7 @@ func runB9(p *an.Prog, r *an.Result) {
 	}
 	// rendered with a map made here, filled from the live bindings, and with the caller's config
 	// the source compiled is the source read (or the cache entry)
-	cc := callsNamed(rfn, "(render.Config).Compile")
+	cc := callsNamed(compileFn, "(render.Config).Compile")
 	okSrc := len(cc) == 1
 	if okSrc {
 		okSrc = false
@@ -1467,7 +1477,7 @@ func runB9(p *an.Prog, r *an.Result) {
 		}
 	}
 	if !okSrc {
-		r.Bad(rname, "Compile of the read source", an.FuncPos(rfn), "the source that was read must be what is compiled")
+		r.Bad(rname, "Compile of the read source", an.FuncPos(compileFn), "the source that was read must be what is compiled")
 	}
 }
 
